@@ -7,20 +7,18 @@ Local Open Scope list_scope.
 (* every character may occur anywhere in an atom *)
 Definition atom_str (s : str) : bool := forallb atom_char s.
 
-Lemma atom_char_tl_of c : atom_char c = true -> atom_char_tl c = true.
-Proof.
-  unfold atom_char, atom_char_tl. destruct (is_ws c || is_brk c); [discriminate|reflexivity].
-Qed.
+(* since the scanner's fix F41 the atoms of the reader are the standard atoms, and the well-formed leaves are the
+   standard leaves *)
+Lemma atom_ok_lib_eq s : atom_ok_lib s = atom_ok s.
+Proof. reflexivity. Qed.
+
+Lemma leaf_ok_std s : leaf_ok s = leaf_std s.
+Proof. reflexivity. Qed.
 
 Lemma atom_str_leaf s : s <> [] -> atom_str s = true -> leaf_ok s = true.
 Proof.
   intros Hne H. destruct s as [|c tl]; [congruence|].
-  unfold leaf_ok, atom_ok_lib. unfold atom_str in H. cbn [forallb] in H.
-  apply andb_true_iff in H as [H1 H2]. rewrite H1. cbn [andb].
-  assert (E : forallb atom_char_tl tl = true).
-  { apply forallb_forall. intros x Hx. apply atom_char_tl_of.
-    rewrite forallb_forall in H2. now apply H2. }
-  rewrite E. reflexivity.
+  unfold leaf_ok, atom_ok_lib, atom_ok. unfold atom_str in H. now rewrite H.
 Qed.
 
 Lemma atom_str_app a b : atom_str (a ++ b) = atom_str a && atom_str b.
